@@ -134,3 +134,10 @@ pub fn minimize(
     }
     None
 }
+
+/// Verification hook (only with `--cfg unic_locale_verif`): read access to the compiled tables.
+#[cfg(unic_locale_verif)]
+#[doc(hidden)]
+pub mod verif_tables {
+    pub use super::tables::*;
+}
